@@ -36,6 +36,10 @@
 (***************************************************************************)
 EXTENDS Integers, Sequences, TLC, Json, IOUtils, StreamShapes
 
+(* TRUE: only what C05 talks about (return value, category, error identity, timestamp, purity, reset twin, skip twin); the shift / scale /  *)
+(* variant / composite twins, the filter bounds and the f64 reference belong to C04, C10, C11 and C12 and are checked when FALSE.             *)
+CONSTANT StructureOnly
+
 Rec == ndJsonDeserialize(IOEnv.TRACE)
 
 VARIABLES l, kind, sh, cmd, idx, lastNone, lastErr, lastSet, lastT, fzT, win, q, mm
@@ -105,19 +109,19 @@ Event ==
      /\ (sh2.cat = "err" => r.out.e = sh2.e)                                                     \* the same error, not a stale one
      /\ (sh2.cat = "some" => r.out.t = (IF kind = "Freeze" THEN newFz ELSE newT))                \* stamped with the newest sample's time
      /\ SameOut(r.get2, r.out)                                                                   \* get() is pure
-     /\ \A j \in 1..Len(r.num) : r.num[j].err <= r.num[j].bound                                   \* within rounding of the recorder's f64 reference (textbook formula, exact intervals)
+     /\ (StructureOnly \/ \A j \in 1..Len(r.num) : r.num[j].err <= r.num[j].bound)                                   \* within rounding of the recorder's f64 reference (textbook formula, exact intervals)
      /\ (best[1] > 0 /\ kind \notin {"F2Q", "Q2F", "Freeze"} =>
             SameOut(IF best[2] = "since_none" THEN r.since_none ELSE IF best[2] = "since_err" THEN r.since_err ELSE r.since_set, r.out))
      /\ ((ShapeIgnoresAbsent(kind) /\ r.ev.c # "none") => SameOut(r.skip, r.out))                \* deleting absent samples changes nothing
-     /\ SameOut(r.shift, r.out)                                                                  \* unchanged by a constant shift of timestamps (shifted back by the recorder)
-     /\ SameOut(r.scale, r.out)                                                                  \* scales exactly with a power of two (rescaled back by the recorder)
-     /\ (kind = "PID" /\ r.ev.c = "some" => SameOut(r.composite, r.out))                         \* the controller assembled from primitive streams agrees after every present sample
-     /\ (kind \in {"MA", "EWMA"} => SameOut(r.variant, r.out))                                   \* the Quantity variant gives the same numbers
-     /\ (kind \in {"MA", "MAQ"} /\ r.ev.c = "some" =>
+     /\ (StructureOnly \/ SameOut(r.shift, r.out))                                                                \* unchanged by a constant shift of timestamps (shifted back by the recorder)
+     /\ (StructureOnly \/ SameOut(r.scale, r.out))                                                                \* scales exactly with a power of two (rescaled back by the recorder)
+     /\ (~StructureOnly /\ kind = "PID" /\ r.ev.c = "some" => SameOut(r.composite, r.out))                         \* the controller assembled from primitive streams agrees after every present sample
+     /\ (~StructureOnly /\ kind \in {"MA", "EWMA"} => SameOut(r.variant, r.out))                                   \* the Quantity variant gives the same numbers
+     /\ (~StructureOnly /\ kind \in {"MA", "MAQ"} /\ r.ev.c = "some" =>
             /\ Len(q2) >= 1
             /\ r.out.keys[1] >= QMin(q2, Len(q2)) - Slack /\ r.out.keys[1] <= QMax(q2, Len(q2)) + Slack
             /\ (Len(q2) = 1 => (r.out.keys[1] >= r.inkey - 2 /\ r.out.keys[1] <= r.inkey + 2)))  \* a single contributing sample is returned (2 ulp)
-     /\ (kind \in {"EWMA", "EWMAQ"} /\ r.ev.c = "some" =>
+     /\ (~StructureOnly /\ kind \in {"EWMA", "EWMAQ"} /\ r.ev.c = "some" =>
             /\ r.out.keys[1] >= mm2[1] - 4 /\ r.out.keys[1] <= mm2[2] + 4
             /\ (sh.cat # "some" => r.out.keys[1] = r.inkey))                                      \* the first sample is returned unchanged
      /\ sh' = sh2
